@@ -62,6 +62,15 @@ def subs_direct(tier):
               subs={"s1": {"kind": "direct"}, "s2": {"kind": "direct"}})
 
 
+def subs_unsub(tier):
+    """s2 is registered for the whole run; s1, registered before it, is unsubscribed while actions flow"""
+    rs = {"r1": {0: red("D"), 1: red("K")}}
+    progs = [{"c1": [S("add_sub", "s1"), S("add_sub", "s2"), S("add_sub", "s3"), D(1), S("unsub", "s1"), D(2)] + STOP,
+              "c2": [D(4, "trait")]}]
+    return _i("subs_unsub", progs, {1: 0, 2: 0, 4: 0}, cap=2, red_script=rs,
+              subs={"s1": {"kind": "direct"}, "s2": {"kind": "direct"}, "s3": {"kind": "direct"}})
+
+
 def stop_race(tier, pol="block", variant=0):
     """dispatchers racing one stopper; dispatch after the stop; a direct and a channeled subscriber"""
     stops = [[O("stop")], [O("close"), O("stop")], [O("stop"), O("stop")], [O("drop_store")]][variant]
@@ -156,6 +165,21 @@ def iterator(tier, drop=False):
               subs={"s1": {"kind": "iter", "cap": 1, "pol": "block"}, "s2": {"kind": "direct"}})
 
 
+def sel_store(tier, big=False):
+    """a selector subscription on a running store: the selected value (number of kind-1 actions in
+    the state) changes only with kind-1 actions"""
+    n = 8 if big else (4 if tier == "quick" else 5)
+    kinds = [1, 0, 0, 1, 1, 0, 1, 0]
+    acts = {i + 1: kinds[i] for i in range(n)}
+    if big:
+        progs = [{"c1": [S("add_sub", "s1"), S("add_sub", "s2")] + [D(i) for i in (1, 2, 3, 4)] + STOP,
+                  "c2": [D(i, "trait") for i in (5, 6, 7, 8)]}]
+    else:
+        progs = [{"c1": [S("add_sub", "s1"), S("add_sub", "s2")] + [D(i) for i in range(1, n)] + STOP, "c2": [D(n, "trait")]}]
+    return _i("sel%s" % ("_big" if big else ""), progs, acts, cap=2 if not big else 8,
+              subs={"s1": {"kind": "sel"}, "s2": {"kind": "direct"}})
+
+
 def api_mix(tier, k):
     """role combinations for C13"""
     roles = {
@@ -209,9 +233,11 @@ def table(pid, tier):
         T = dict(mc=[(i, inv, []) for i in insts], gen=[(i, 700 if q else 10000) for i in insts],
                  free=[(i, 60 if q else 600) for i in insts])
     elif pid == "C03":
-        a = subs_direct(tier)
-        inv = ["C03_OnlyDispatch", "C03_EveryDispatch", "C03_StateAndOrder", "C03_Stream", "C07_DirectOnReducer"]
-        T = dict(mc=[(a, inv, [])], gen=[(a, 1500 if q else 20000)], free=[(a, 150 if q else 1500)])
+        a, b = subs_direct(tier), subs_unsub(tier)
+        inv = ["C03_OnlyDispatch", "C03_EveryDispatch", "C03_StateAndOrder", "C03_Stream", "C07_DirectOnReducer",
+               "C09_Notified"]
+        T = dict(mc=[(a, inv, []), (b, inv, [])], gen=[(a, 800 if q else 20000), (b, 800 if q else 20000)],
+                 free=[(a, 100 if q else 1500), (b, 100 if q else 1500)])
     elif pid == "C04":
         vs = [0, 1] if q else [0, 1, 2]
         insts = [stop_race(tier, "block", v) for v in vs] + ([] if q else [stop_race(tier, "latest", 0), stop_race(tier, "oldest", 0)])
